@@ -117,9 +117,10 @@ pub fn check_svg(doc: &str, vals: &[bool], n: usize, model: &SvgModel) -> (Vec<(
         }
         None => out.push(("viewbox".into(), "no viewBox".into())),
     }
-    // background: first child is a rect of side S in the background colour
-    match root.children.first() {
-        Some(r) if r.name == "rect" => {
+    // background: the first <rect> of the document, before any <path>, of side S in the background colour
+    let first_path = root.children.iter().position(|c| c.name == "path").unwrap_or(root.children.len());
+    match root.children.iter().take(first_path).find(|c| c.name == "rect") {
+        Some(r) => {
             let w = r.attr("width").and_then(num_px);
             let h = r.attr("height").and_then(num_px);
             if w != Some(s) || h != Some(s) {
@@ -135,7 +136,7 @@ pub fn check_svg(doc: &str, vals: &[bool], n: usize, model: &SvgModel) -> (Vec<(
                 out.push(("background-colour".into(), format!("background fill {:?}, expected {}", r.attr("fill"), want)));
             }
         }
-        _ => out.push(("background-missing".into(), "first child of <svg> is not the background <rect>".into())),
+        None => out.push(("background-missing".into(), "no background <rect> before the module paths".into())),
     }
     // layers
     let paths: Vec<&xml::Element> = root.children.iter().filter(|c| c.name == "path").collect();
